@@ -32,8 +32,27 @@ func NewDisconnectMessage() *DisconnectMessage {
 }
 
 // Decode decodes the message.
+func (m *DisconnectMessage) Len() int {
+	if !m.dirty {
+		return len(m.dbuf)
+	}
+
+	return m.header.Len()
+}
+
 func (m *DisconnectMessage) Decode(src []byte) (int, error) {
-	return m.header.decode(src)
+	n, err := m.header.decode(src)
+	if err != nil {
+		return n, err
+	}
+
+	if m.remlen != 0 {
+		return n, fmt.Errorf("disconnect/Decode: Invalid remaining length. Expecting %d, got %d", 0, m.remlen)
+	}
+
+	m.dirty = false
+
+	return n, nil
 }
 
 // Encode encodes the message.
